@@ -1,26 +1,30 @@
 """C11 - Editing operations change only what they document and preserve everything else (structural clauses)."""
 from __future__ import annotations
 
-from . import lib_py, lib_schema, lib_guards, lib_module
-from sa.schema import load_schemas
+from . import scopes
+from . import lib_py, lib_schema, lib_module
 
 LEVEL = "other"
-EXPLANATION = ("Column completeness of every in-place table rebuild in the Python editors, row-forwarding (metadata travels with "
-               "re-emitted rows) and argument/parameter agreement in the C editors, editors work on a copy and return through "
-               "the validity gate. Does not decide that trees inside retained intervals are unchanged.")
-EDITORS = ["simplify", "keep_intervals", "delete_intervals", "delete_sites", "ltrim", "rtrim", "trim", "subset", "union",
-           "split_edges", "decapitate", "extend_haplotypes"]
+EXPLANATION = ("Column completeness of every in-place table rebuild in the Python editors, half-open interval membership, row-"
+               "forwarding (metadata travels with re-emitted rows) and argument/parameter agreement in the C editors, editors work "
+               "on a copy and return through the validity gate, byte lengths of metadata come from the object. Does not decide that "
+               "trees inside retained intervals are unchanged.")
+EDITORS = ["keep_intervals", "delete_intervals", "delete_sites", "ltrim", "rtrim", "trim", "split_edges", "decapitate", "extend_haplotypes"]
 
 
 def run(ctx):
     py = ctx.python()
     P = ctx.program()
+    ps, ms = scopes.py_scope("C11"), scopes.module_scope("C11")
+    ced = lambda f: f in ("tsk_table_collection_delete_older", "tsk_treeseq_split_edges", "tsk_treeseq_extend_haplotypes",
+                          "tsk_treeseq_slide_mutation_nodes_up", "extend_haplotypes_iter") or f.startswith("haplotype_extender")
     lib_py.setcols_complete(ctx, py)
-    lib_py.gate_before_return(ctx, py, EDITORS)
-    lib_py.kw_forward(ctx, py, mods=("trees", "tables"))
-    lib_py.unused_params(ctx, py, mods=("trees", "tables", "util", "intervals"))
-    lib_schema.argname(ctx, P)
-    lib_schema.row_forwarding(ctx, P)
     lib_py.half_open(ctx, py)
-    lib_module.bytes_length(ctx, P)
-    lib_module.parsed_used(ctx, P)
+    lib_py.gate_before_return(ctx, py, EDITORS)
+    lib_py.kw_forward(ctx, py, mods=("trees", "tables"), only=ps)
+    lib_py.unused_params(ctx, py, mods=("trees", "tables", "util", "intervals"), only=lambda m, q: ps(m, q) or m in ("intervals",))
+    lib_py.ll_positional(ctx, py, P, only=ps)
+    lib_schema.argname(ctx, P, funcs=ced)
+    lib_schema.row_forwarding(ctx, P, funcs=ced)
+    lib_module.bytes_length(ctx, P, only=ms)
+    lib_module.parsed_used(ctx, P, only=ms)
